@@ -80,10 +80,11 @@ def hexVal (c : Char) : Nat :=
   if '0' ≤ c && c ≤ '9' then c.toNat - 48 else if 'a' ≤ c && c ≤ 'f' then c.toNat - 87 else 0
 
 def unhex (s : String) : Str :=
-  let rec go : List Char → Str
-    | a :: b :: t => (hexVal a * 16 + hexVal b) :: go t
-    | _ => []
-  go s.toList
+  -- tail recursive: a `W` line can hold megabytes (a reader that accepted a huge declared string writes it back)
+  let rec go : List Char → Array Nat → Array Nat
+    | a :: b :: t, acc => go t (acc.push (hexVal a * 16 + hexVal b))
+    | _, acc => acc
+  (go s.toList #[]).toList
 
 def strOf (l : Str) : String := String.ofList (l.map (fun c => Char.ofNat c))
 def hexOf (l : Str) : String :=
@@ -441,9 +442,20 @@ def judgeRead (st : JState) : IO JState := do
     else
       -- round trip proper.  Implementation alone first: the mesh read back is the mesh written …
       let sameKind := r.kind == st.caseKind
-      match dumpDiff st.src r.dump with
+      -- a topology-checked read into a hexahedral mesh stores each cell's halffaces in the x/y/z convention: the list
+      -- may be a permutation of the written one (C16); then the read-back must equal the model's prediction and be
+      -- cell by cell a permutation of the source
+      let hexReordered : Bool :=
+        r.kind == "hex" && r.chk &&
+        (match st.fileM with
+         | some F0 => F.cells.length == F0.cells.length &&
+                      (List.range F.cells.length).all (fun i => insSort (F.cells.getD i []) == insSort (F0.cells.getD i [])) &&
+                      { F with cells := F0.cells } == F0 && (diffFile true true F r.dump).isNone
+         | none => false)
+      match (if hexReordered then none else dumpDiff st.src r.dump) with
       | some why => emit st "FAIL" "prop" ("roundtrip-differs:" ++ why) s!"mesh read back differs from the source mesh in {why}"
       | none =>
+      if hexReordered && F.cells != (st.fileM.map (·.cells)).getD [] then emit st "OK" "-" "-" "roundtrip-hex-reordered" else
       let _ := sameKind
       -- … and writing it again changes nothing (property blocks compared as a multiset)
       match r.w, st.fileM with
